@@ -774,6 +774,11 @@ def search_C16(n_random, seed):
         keep += rnd.sample([x for x in cells if x not in keep], min(10, len(cells) - len(keep)))
         cells = keep
     jobs = []
+    # schedules given in the configuration ([accounting_methods]) instead of -m: one entry, several entries
+    for c in ("us", "generic", "ie"):
+        ms = methods_of(c)
+        for cm in ({2019: ms[0]}, {1970: ms[-1]}, {2018: ms[0], 2020: ms[-1], 2021: ms[len(ms) // 2]}):
+            jobs.append((len(jobs), scs[1], {"country": c, "lang": None, "method": None, "from": None, "to": None, "config_methods": cm}))
     for k, (c, lang, m) in enumerate(cells):
         sc = scs[k % len(scs)]
         wins = windows_for(sc, rnd)
@@ -824,6 +829,16 @@ def search_C18(n_random, seed):
         # an invalid input (unknown asset sheet) and an invalid option for every entry point: the error paths must stay silent too
         jobs.append((len(jobs), scs[k % 3], {"country": c, "lang": "en" if c == "jp" else None}, {"B1": {"drop_end": "IN"}}, None))
     jobs.append((len(jobs), scs[0], {"country": "us"}, None, {"RP2_ENABLE_PROFILER": "1"}))
+    if n_random > 40:
+        # thorough: every entry point x every method / shipped language / window kind as well
+        more = multi_scenarios(rnd, 6, earn=True, intra=True)
+        for c in COUNTRIES:
+            for m in methods_of(c):
+                sc = rnd.choice(more)
+                w = rnd.choice(windows_for(sc, rnd)[:3])
+                jobs.append((len(jobs), sc, {"country": c, "lang": "en" if c == "jp" else None, "method": m, "from": w[0], "to": w[1]}, None, None))
+            for lang in languages_of(c):
+                jobs.append((len(jobs), rnd.choice(more), {"country": c, "lang": lang}, None, None))
     root = tempfile.mkdtemp(prefix="rp2cli_")
 
     def digest(path):
@@ -1122,7 +1137,7 @@ def fault_cases(rnd, sc):
         cases.append(("more received than sent", mut(i, received=str(float(txs[i]["amount"]) + 1)), None, None, []))
         cases.append(("non-positive amount sent", mut(i, amount="0", received="0"), None, None, []))
     for what, st in (("missing TABLE END", {"drop_end": rnd.choice(["IN"] + (["OUT"] if outs else []))}), ("nested table", {"nested": "IN"}), ("repeated table", {"repeat": "IN"}),
-                     ("data outside a table", {"data_outside": True})):
+                     ("data outside a table", {"data_outside": True}), ("repeated table after all tables were closed", {"repeat_end": "OUT" if outs else "IN"})):
         cases.append((what, sc, {"B1": st}, None, []))
     noin = json.loads(json.dumps(sc))
     noin["assets"]["B1"] = [t for t in txs if t["tab"] != "IN"]
